@@ -33,14 +33,22 @@ Definition dummy : event := {| e_ts := 0; e_msg := []; e_flds := []; e_keep := t
 (* pre: events of the source readable when the pipe was created (their content does not matter);
    tail: events acknowledged before the creation but not yet readable at that moment *)
 Inductive case :=
-| KSrc (tags : list (bytes * bytes)) (pre : nat) (tail : list event) (ops : list sop) (observed : list devent).
+| KSrc (tags : list (bytes * bytes)) (pre : nat) (tail : list event) (ops : list sop) (observed : list devent)
+(* stale: the last events written (readable, acknowledged) before the pipe was created, whose WriteEvent was still
+   in the channel at that moment *)
+| KStale (tags : list (bytes * bytes)) (pre : nat) (stale : list event) (ops : list sop) (observed : list devent).
 
 Definition model_dst (tags : list (bytes * bytes)) (pre : nat) (tail : list event) (ops : list sop) : list devent :=
   dst (run code_applies_filter tags (init (repeat dummy pre ++ tail) pre) (flat_map sched_of ops)).
 
+Definition model_dst_stale (tags : list (bytes * bytes)) (pre : nat) (stale : list event) (ops : list sop) : list devent :=
+  dst (run code_applies_filter tags (init_stale (repeat dummy pre ++ stale) [(pre, pre + length stale)])
+         ((LDeliver :: works (length stale + 6)) ++ flat_map sched_of ops)).
+
 Definition check (c : case) : bool :=
   match c with
   | KSrc tags pre tail ops observed => list_eqb devent_eqb (model_dst tags pre tail ops) observed
+  | KStale tags pre stale ops observed => list_eqb devent_eqb (model_dst_stale tags pre stale ops) observed
   end.
 
 Definition mismatches (l : list case) : list nat := mismatches_of check l.
